@@ -15,11 +15,11 @@ REQ = {
  'dhcpv4.WithGatewayIP$1': ('doc', ['set GatewayIPAddr := $ip'], []), 'dhcpv4.WithClientIP$1': ('doc', ['set ClientIPAddr := $ip'], []),
  'dhcpv4.WithHwAddr$1': ('doc', ['set ClientHWAddr := $hwaddr'], []), 'dhcpv4.WithBroadcast$1': ('doc', ['[if $broadcast] call SetBroadcast()', '[if !$broadcast] call SetUnicast()'], []),
  'dhcpv4.newDHCPv4': ('doc: defaults, then modifiers in slice order', ['set TransactionID := $xid', 'apply $modifiers[]'], []),
- 'dhcpv4.New': ('doc: fresh random transaction id, then newDHCPv4', ['call GenerateTransactionID()', 'call newDHCPv4('], []),
+ 'dhcpv4.New': ('doc: fresh random transaction id, then newDHCPv4', ['call GenerateTransactionIDWithContext(context.Background())', 'call newDHCPv4('], []),
  'dhcpv6.NewAdvertiseFromSolicit': ('RFC 8415 §18.3.9', ['requires ($sol.Type()==const:1)', 'set MessageType := const:2', 'set TransactionID := $sol.TransactionID', 'call AddOption($sol.GetOneOption(1))'], []),
  'dhcpv6.NewRequestFromAdvertise': ('RFC 8415 §18.2.2', ['requires ($adv.MessageType==const:2)', 'requires ($adv.GetOneOption(1)!=', 'requires ($adv.GetOneOption(2)!=', 'requires ($adv.Options.OneIANA()!=', 'set MessageType := const:3', 'call AddOption($adv.GetOneOption(1))', 'call AddOption($adv.GetOneOption(2))', 'call AddOption($adv.Options.OneIANA())', 'call NewMessage('], ['set TransactionID := $adv.TransactionID']),
  'dhcpv6.NewReplyFromMessage': ('RFC 8415 §18.3.10', ['set MessageType := const:7', 'set TransactionID := $msg.TransactionID', 'call AddOption($msg.GetOneOption(1))', 'requires ($msg.GetOneOption(1)!='], []),
- 'dhcpv6.EncapsulateRelay': ('RFC 8415 §19.1', ['set LinkAddr := $linkAddr', 'set PeerAddr := $peerAddr', '[if $d.IsRelay()] set HopCount := ($d.(dhcpv6.RelayMessage).HopCount+const:1)', '[if !$d.IsRelay()] set HopCount := const:0', 'call AddOption(OptRelayMessage($d))', 'set MessageType := $mType'], []),
+ 'dhcpv6.EncapsulateRelay': ('RFC 8415 §19.1', ['set LinkAddr := $linkAddr', 'set PeerAddr := $peerAddr', '[if $d.IsRelay()] set HopCount := ($d.(dhcpv6.RelayMessage).HopCount+const:1)', 'call AddOption(OptRelayMessage($d))', 'set MessageType := $mType'], []),
  'dhcpv6.NewRelayReplFromRelayForw': ('RFC 8415 §19.3; RFC 4649 §3', ['requires ($relay.Type()==const:12)', 'requires ($msg!=const:nil', 'call EncapsulateRelay(φ('], []),
  '(*dhcpv4/nclient4.Client).RequestFromOffer': ('RFC 2131 §4.4.1 (property C13)', ['IsAll([IsCorrectServer($offer.ServerIdentifier()) IsMessageType(const:5, [const:6])])', 'set ACK := .SendAndRead()#0', 'set Offer := $offer', 'requires (.SendAndRead()#0.MessageType()!=const:6)', 'call NewRequestFromOffer($offer,'], []),
  '(*dhcpv4/nclient4.Client).Renew': ('RFC 2131 §4.4.5', ['call NewRenewFromAck($lease.ACK,', 'IsAll([IsCorrectServer($lease.Offer.ServerIdentifier()) IsMessageType(const:5, [const:6])])', 'set Offer := $lease.Offer', 'set ACK := .SendAndRead()#0'], []),
